@@ -118,9 +118,44 @@ def sweep_inputs():
     return out
 
 
+def table_inputs(ctx):
+    """table-driven clauses of the specification, row by row:
+    (a) DOCTYPE -> document mode: every public-identifier prefix / exact value / system identifier of Gen_Quirks, plus every
+        string literal of html5parser.py that looks like a public identifier, x system identifier {missing, empty, other} x
+        letter case, followed by <p><table> (the tree and the recorded compatibility mode show the mode);
+    (b) character references inside attribute values followed by each class of character, including the characters that
+        Python's isalnum()/isdigit()/isalpha() accept and HTML's ASCII classes do not."""
+    from .. import gen, literals, charclasses
+    out = []
+    pubs = list(gen.QUIRKY_PREFIXES) + list(gen.QUIRKY_EXACT) + list(gen.LIMITED_PREFIXES) + list(gen.HTML401_PREFIXES) + ["", "x"]
+    pubs += sorted(s_ for s_ in literals.strings("html5lib/html5parser.py") if "//" in s_ and s_ not in pubs and len(s_) < 90)
+    if ctx.quick:
+        keep = set(gen.LIMITED_PREFIXES) | set(gen.HTML401_PREFIXES) | set(gen.QUIRKY_EXACT)
+        pubs = [p_ for i, p_ in enumerate(pubs) if p_ in keep or i % 4 == ctx.seed % 4]
+    for p_ in pubs:
+        for pub in (p_, p_.upper(), p_ + "x"):
+            for sysid in (None, "", "x", gen.IBM_SYSTEM, gen.IBM_SYSTEM.upper()):
+                if sysid is None:
+                    d = '<!DOCTYPE html PUBLIC "%s">' % pub
+                else:
+                    d = '<!DOCTYPE html PUBLIC "%s" "%s">' % (pub, sysid)
+                out.append((d + "<p><table>", None))
+    for sysid in ("", "x", gen.IBM_SYSTEM, "about:legacy-compat"):
+        out.append(('<!DOCTYPE html SYSTEM "%s"><p><table>' % sysid, None))
+        out.append(('<!DOCTYPE HTML system "%s"><p><table>' % sysid.upper(), None))
+    followers = ["", ";", "=", "a", "Z", "0", "9", " ", "&", "é", "É", "中", "²", "٣", "\u212a", "\u017f", "\U0001d7d8", "\u00aa", "-", "_"]
+    followers += [c for c in charclasses.NON_ASCII_DIGITS]
+    for nm in ("amp", "lt", "copy", "not", "AElig", "amp;", "notin;", "#38", "#x26", "#38;"):
+        for f in followers:
+            for tmpl in ('<p title="&%s%sx">', "<p title='y&%s%s'>", "<p title=&%s%s>", "<p>&%s%s</p>", "<textarea>&%s%s"):
+                out.append((tmpl % (nm, f), None if len(out) % 3 else "div"))
+    return out
+
+
 def trace_inputs(ctx, n):
     from .. import corpus
-    docs = [(d, c) for d, c in WITNESS] + sweep_inputs()
+    docs = [(d, c) for d, c in WITNESS] + sweep_inputs() + table_inputs(ctx)
+    n += len(docs)
     rs = [s for s in corpus.repo_strings(200) if len(s) <= 120]
     ctx.rng.shuffle(rs)
     for s_ in rs[: n // 3]:
